@@ -146,6 +146,8 @@ def render_library(groups=None, descriptors=None, units=None, include=None,
         out.append("        'groups':")
         out.append('           [' + ','.join(q(n) for n in uq['groups'])
                    + ']')
+    if not out:
+        out.append('include: []')     # an empty YAML document is not a library
     return '\n'.join(out) + '\n'
 
 
